@@ -393,11 +393,11 @@ func c06exampleAs(c *core.Ctx, R string) {
 				s = core.ExprStr(x.Init.(*ast.AssignStmt).Rhs[0]) + ";" + s
 			}
 			condOnly := core.ExprStr(x.Cond)
-			if strings.Contains(s, "processedTypes[") && (strings.HasSuffix(condOnly, " > 1") || strings.HasSuffix(condOnly, " >= 2")) && !strings.ContainsAny(condOnly, "&|") && !test.IsValid() {
+			if strings.Contains(s, counterIndex(c)) && (strings.HasSuffix(condOnly, " > 1") || strings.HasSuffix(condOnly, " >= 2")) && !strings.ContainsAny(condOnly, "&|") && !test.IsValid() {
 				test = x.Pos()
 			}
 		case *ast.IncDecStmt:
-			if strings.Contains(core.ExprStr(x.X), "processedTypes[") {
+			if strings.Contains(core.ExprStr(x.X), counterIndex(c)) {
 				if x.Tok == token.INC && !inc.IsValid() {
 					inc = x.Pos()
 				}
@@ -431,14 +431,14 @@ func c06bounded(c *core.Ctx, R string, d *core.DeclSite) {
 	// variables that hold a counter value
 	cnt := map[string]bool{}
 	ast.Inspect(d.Decl.Body, func(n ast.Node) bool {
-		if as, ok := n.(*ast.AssignStmt); ok && len(as.Lhs) == 1 && len(as.Rhs) == 1 && strings.Contains(core.ExprStr(as.Rhs[0]), "processedTypes[") {
+		if as, ok := n.(*ast.AssignStmt); ok && len(as.Lhs) == 1 && len(as.Rhs) == 1 && strings.Contains(core.ExprStr(as.Rhs[0]), counterIndex(c)) {
 			cnt[core.ExprStr(as.Lhs[0])] = true
 		}
 		return true
 	})
 	isCnt := func(e ast.Expr) bool {
 		s := core.ExprStr(ast.Unparen(e))
-		return cnt[s] || strings.Contains(s, "processedTypes[")
+		return cnt[s] || strings.Contains(s, counterIndex(c))
 	}
 	bad := ""
 	n := 0
@@ -488,7 +488,7 @@ func c06alt(c *core.Ctx) {
 				s = core.ExprStr(as.Rhs[0]) + ";" + s
 			}
 		}
-		if !strings.Contains(s, "processedTypes[") {
+		if !strings.Contains(s, counterIndex(c)) {
 			return true
 		}
 		// a loop over (a re-slice of) the alternatives - here, or in a helper of the package that is
@@ -561,4 +561,10 @@ func c06alt(c *core.Ctx) {
 		return true
 	})
 	c.Check(ok, R, "buildExampleForMixedValueNode:alternatives", c.P.Pos(d.Decl.Pos()), "the recursion-limit branch tries the other alternatives of the choice", "only the first alternative is ever used: at the limit the example of the choice is empty although another alternative is finite")
+}
+
+// counterIndex: how the example builder's per-type expansion counter is indexed in the source
+// (`processedTypes[`, or the field's current name after a rename).
+func counterIndex(c *core.Ctx) string {
+	return c.P.CurrentField("notations/jschema", "exampleBuilder", "processedTypes") + "["
 }
